@@ -4,9 +4,902 @@ import NxProofs.Bytes
 namespace Nx.Schema
 open Nx
 
-/-- struct names unique, parents and struct-typed fields refer to earlier definitions -/
-def WFStructs (env : Env) : Prop := wfStructs env = true
+/-! ## primitives -/
 
-theorem wfStructs_sound (env : Env) (h : wfStructs env = true) : WFStructs env := h
+theorem rd_append (b r : Bytes) : rd b.length (b ++ r) = .ok (b, r) := by
+  simp [rd]
+
+theorem rdN_leN (w : W) (n : Nat) (r : Bytes) (h : n < 2 ^ w.bits) : rdN w (leN w n ++ r) = .ok (n, r) := by
+  cases w <;> simp only [W.bits] at h <;> simp only [rdN, leN]
+  · exact rdU8_u8 n r (by omega)
+  · exact rdU16_u16le n r (by omega)
+  · exact rdU32_u32le n r (by omega)
+  · exact rdU64_u64le n r (by omega)
+
+theorem encUInt_ok {w : W} {i : Int} {b : Bytes} (h : encUInt w i = .ok b) :
+    0 ≤ i ∧ i < (2 : Int) ^ w.bits ∧ b = leN w i.toNat := by
+  unfold encUInt at h
+  split at h
+  · rename_i hc; cases h; exact ⟨hc.1, hc.2, rfl⟩
+  · cases h
+
+theorem encUInt_rt {w : W} {i : Int} {b : Bytes} (r : Bytes) (h : encUInt w i = .ok b) :
+    intOk (rdN w (b ++ r)) = .ok (.int i, r) := by
+  obtain ⟨h0, h1, rfl⟩ := encUInt_ok h
+  have hn : i.toNat < 2 ^ w.bits := by
+    have : ((i.toNat : Nat) : Int) < ((2 ^ w.bits : Nat) : Int) := by
+      rw [Int.toNat_of_nonneg h0]; push_cast; exact h1
+    exact Int.ofNat_lt.mp this
+  rw [rdN_leN w _ r hn]
+  simp [intOk, Int.toNat_of_nonneg h0]
+
+theorem encSInt_rt {w : W} {i : Int} {b : Bytes} (r : Bytes) (h : encSInt w i = .ok b) :
+    decSInt w (b ++ r) = .ok (i, r) := by
+  unfold encSInt at h
+  split at h
+  · rename_i hc
+    cases h
+    have hn : (i % (2 : Int) ^ w.bits).toNat < 2 ^ w.bits := by
+      cases w <;> simp only [W.bits] at hc ⊢ <;> omega
+    unfold decSInt
+    rw [rdN_leN w _ r hn]
+    simp only []
+    congr 2
+    split
+    · rename_i hh; cases w <;> simp only [W.bits] at hh hc ⊢ <;> omega
+    · rename_i hh; cases w <;> simp only [W.bits] at hh hc ⊢ <;> omega
+  · cases h
+
+theorem encStr_rt {s b : Bytes} (r : Bytes) (h : encStr s = .ok b) : decStr (b ++ r) = .ok (some s, r) := by
+  unfold encStr at h
+  split at h
+  · rename_i hc
+    cases h
+    unfold decStr
+    rw [List.append_assoc, List.append_assoc, rdU16_u16le _ _ hc]
+    simp only []
+    rw [if_neg (by omega)]
+    have : rd (s.length + 1) (s ++ ([0] ++ r)) = .ok (s ++ [0], r) := by
+      have := rd_append (s ++ [0]) r
+      simpa using this
+    rw [this]
+    simp
+  · cases h
+
+theorem encBuf_rt {d b : Bytes} (r : Bytes) (h : encBuf d = .ok b) : decBuf (b ++ r) = .ok (d, r) := by
+  unfold encBuf at h
+  split at h
+  · rename_i hc; cases h
+    unfold decBuf
+    rw [List.append_assoc, rdU32_u32le _ _ hc]
+    exact rd_append d r
+  · cases h
+
+theorem encQBuf_rt {d b : Bytes} (r : Bytes) (h : encQBuf d = .ok b) : decQBuf (b ++ r) = .ok (d, r) := by
+  unfold encQBuf at h
+  split at h
+  · rename_i hc; cases h
+    unfold decQBuf
+    rw [List.append_assoc, rdU16_u16le _ _ hc]
+    exact rd_append d r
+  · cases h
+
+theorem encVariant_rt {v : Val} {b : Bytes} (r : Bytes) (h : encVariant v = .ok b) :
+    decVariant (b ++ r) = .ok (v, r) := by
+  cases v <;> simp only [encVariant] at h
+  case none => cases h; simp [decVariant, rdU8]
+  case bool x => cases h; cases x <;> simp [decVariant, rdU8]
+  case int i =>
+    split at h
+    · split at h
+      · rename_i b' hb; cases h
+        have := encSInt_rt r hb
+        simp [decVariant, rdU8, this]
+      · cases h
+    · split at h
+      · rename_i b' hb; cases h
+        obtain ⟨h0, h1, rfl⟩ := encUInt_ok hb
+        have hn : i.toNat < 18446744073709551616 := by simp only [W.bits] at h1; omega
+        have := rdU64_u64le _ r hn
+        simp only [leN]
+        simp [decVariant, rdU8, this, Int.toNat_of_nonneg h0]
+      · cases h
+  case str s =>
+    split at h
+    · rename_i b' hb; cases h
+      have := encStr_rt r hb
+      simp [decVariant, rdU8, this]
+    · cases h
+  case dbl n =>
+    split at h
+    · rename_i hn; cases h
+      have := rdU64_u64le _ r hn
+      simp [decVariant, rdU8, this]
+    · cases h
+  case dt n =>
+    split at h
+    · rename_i hn; cases h
+      have := rdU64_u64le _ r hn
+      simp [decVariant, rdU8, this]
+    · cases h
+  all_goals cases h
+
+/-! ## lists, maps -/
+
+theorem encList_rt (f : Val → Except Err Bytes) (g : Bytes → Except Err (Val × Bytes)) (vis : Val → Val) :
+    ∀ (vs : List Val) (b r : Bytes),
+      (∀ v ∈ vs, ∀ b r, f v = .ok b → g (b ++ r) = .ok (vis v, r)) →
+      encList f vs = .ok b → decList g vs.length (b ++ r) = .ok (vs.map vis, r)
+  | [], b, r, _, h => by simp [encList] at h; subst h; simp [decList]
+  | v :: vs, b, r, H, h => by
+    simp only [encList] at h
+    split at h
+    · cases h
+    · rename_i b1 hb1
+      split at h
+      · cases h
+      · rename_i bs hbs
+        cases h
+        have h1 := H v (by simp) b1 (bs ++ r) hb1
+        have h2 := encList_rt f g vis vs bs r (fun v hv => H v (by simp [hv])) hbs
+        simp [decList, List.append_assoc, h1, h2]
+
+theorem encPairs_rt (fk fv : Val → Except Err Bytes) (gk gv : Bytes → Except Err (Val × Bytes)) (visk visv : Val → Val) :
+    ∀ (kvs : List (Val × Val)) (b r : Bytes),
+      (∀ kv ∈ kvs, ∀ b r, fk kv.1 = .ok b → gk (b ++ r) = .ok (visk kv.1, r)) →
+      (∀ kv ∈ kvs, ∀ b r, fv kv.2 = .ok b → gv (b ++ r) = .ok (visv kv.2, r)) →
+      encPairs fk fv kvs = .ok b →
+      decPairs gk gv kvs.length (b ++ r) = .ok (kvs.map (fun kv => (visk kv.1, visv kv.2)), r)
+  | [], b, r, _, _, h => by simp [encPairs] at h; subst h; simp [decPairs]
+  | (k, v) :: kvs, b, r, Hk, Hv, h => by
+    simp only [encPairs] at h
+    split at h
+    · cases h
+    · rename_i bk hbk
+      split at h
+      · cases h
+      · rename_i bv hbv
+        split at h
+        · cases h
+        · rename_i bs hbs
+          cases h
+          have h1 := Hk (k, v) (by simp) bk (bv ++ (bs ++ r)) hbk
+          have h2 := Hv (k, v) (by simp) bv (bs ++ r) hbv
+          have h3 := encPairs_rt fk fv gk gv visk visv kvs bs r
+            (fun kv hkv => Hk kv (by simp [hkv])) (fun kv hkv => Hv kv (by simp [hkv])) hbs
+          simp only [] at h1 h2
+          simp [decPairs, List.append_assoc, h1, h2, h3]
+
+/-! ## types -/
+
+/-- what the interpreter needs from the hooks for nested structure instances -/
+def HookRT (E : EncHook) (D : DecHook) (V : VisHook) : Prop :=
+  ∀ n fs b r, E n fs = .ok b → D n (b ++ r) = .ok (V n fs, r)
+
+theorem encTy_rt (env : Env) (cfg : Cfg) {E : EncHook} {D : DecHook} {V : VisHook} (H : HookRT E D V) :
+    ∀ (ty : Ty) (v : Val) (b r : Bytes),
+      encTy E env cfg ty v = .ok b → decTy D env cfg ty (b ++ r) = .ok (visTy V ty v, r) := by
+  intro ty
+  induction ty with
+  | uint w =>
+    intro v b r h
+    cases v <;> simp only [encTy] at h <;> try (cases h; done)
+    simp only [decTy, visTy]; exact encUInt_rt r h
+  | sint w =>
+    intro v b r h
+    cases v <;> simp only [encTy] at h <;> try (cases h; done)
+    simp only [decTy, visTy, encSInt_rt r h]
+  | float =>
+    intro v b r h
+    cases v <;> simp only [encTy] at h <;> try (cases h; done)
+    simp only [decTy, visTy]; exact encUInt_rt (w := .b4) r h
+  | double =>
+    intro v b r h
+    cases v <;> simp only [encTy] at h <;> try (cases h; done)
+    simp only [decTy, visTy]; exact encUInt_rt (w := .b8) r h
+  | bool =>
+    intro v b r h
+    cases v <;> simp only [encTy] at h <;> try (cases h; done)
+    rename_i x; cases h; cases x <;> simp [decTy, visTy, rdU8]
+  | pid =>
+    intro v b r h
+    cases v <;> simp only [encTy] at h <;> try (cases h; done)
+    simp only [decTy, visTy]
+    split at h
+    · rename_i hp; rw [if_pos hp]; exact encUInt_rt (w := .b8) r h
+    · rename_i hp; rw [if_neg hp]; exact encUInt_rt (w := .b4) r h
+  | result =>
+    intro v b r h
+    cases v <;> simp only [encTy] at h <;> try (cases h; done)
+    simp only [decTy, visTy]; exact encUInt_rt (w := .b4) r h
+  | datetime =>
+    intro v b r h
+    cases v <;> simp only [encTy] at h <;> try (cases h; done)
+    simp only [decTy, visTy]; exact encUInt_rt (w := .b8) r h
+  | string =>
+    intro v b r h
+    cases v <;> simp only [encTy] at h <;> try (cases h; done)
+    · cases h; simp [decTy, visTy, decStr, rdU16, u16le]
+    · simp only [decTy, visTy, encStr_rt r h]
+  | stationurl =>
+    intro v b r h
+    cases v <;> simp only [encTy] at h <;> try (cases h; done)
+    simp only [decTy, visTy, encStr_rt r h]
+  | buffer =>
+    intro v b r h
+    cases v <;> simp only [encTy] at h <;> try (cases h; done)
+    simp only [decTy, visTy, encBuf_rt r h]
+  | qbuffer =>
+    intro v b r h
+    cases v <;> simp only [encTy] at h <;> try (cases h; done)
+    simp only [decTy, visTy, encQBuf_rt r h]
+  | variant =>
+    intro v b r h
+    simp only [encTy] at h
+    have := encVariant_rt r h
+    cases v <;> simp only [decTy, visTy, this]
+  | list t ih =>
+    intro v b r h
+    cases v <;> simp only [encTy] at h <;> try (cases h; done)
+    rename_i vs
+    split at h
+    · rename_i hl
+      split at h
+      · rename_i b' hb'
+        cases h
+        have h2 := encList_rt (encTy E env cfg t) (decTy D env cfg t) (visTy V t) vs b' r
+          (fun v _ b r hv => ih v b r hv) hb'
+        simp only [decTy, visTy, List.append_assoc, rdU32_u32le _ _ hl, h2]
+      · cases h
+    · cases h
+  | map k v ihk ihv =>
+    intro x b r h
+    cases x <;> simp only [encTy] at h <;> try (cases h; done)
+    rename_i kvs
+    split at h
+    · rename_i hl
+      split at h
+      · rename_i b' hb'
+        cases h
+        have h2 := encPairs_rt (encTy E env cfg k) (encTy E env cfg v) (decTy D env cfg k) (decTy D env cfg v)
+          (visTy V k) (visTy V v) kvs b' r
+          (fun kv _ b r hv => ihk kv.1 b r hv) (fun kv _ b r hv => ihv kv.2 b r hv) hb'
+        simp only [decTy, visTy, List.append_assoc, rdU32_u32le _ _ hl, h2]
+      · cases h
+    · cases h
+  | struct n =>
+    intro v b r h
+    cases v <;> simp only [encTy] at h <;> try (cases h; done)
+    rename_i cls fs
+    split at h
+    · rename_i hc; subst hc
+      simp only [decTy, visTy, H _ _ _ r h]
+    · cases h
+  | anydata =>
+    intro v b r h
+    cases v <;> simp only [encTy] at h <;> try (cases h; done)
+    rename_i cls fs
+    split at h
+    · cases h
+    · rename_i d hd
+      split at h
+      · cases h
+      · rename_i hname
+        have hname' : d.name = cls := by
+          by_cases hh : d.name = cls
+          · exact hh
+          · exact absurd hh hname
+        split at h
+        · cases h
+        · rename_i nm hnm
+          split at h
+          · cases h
+          · rename_i body hbody
+            split at h
+            · rename_i hlen
+              cases h
+              have h1 := encStr_rt (u32le (body.length + 4) ++ (u32le body.length ++ (body ++ r))) hnm
+              have h2 : decBuf (u32le (body.length + 4) ++ (u32le body.length ++ (body ++ r)))
+                  = .ok (u32le body.length ++ body, r) := by
+                unfold decBuf
+                rw [rdU32_u32le _ _ hlen]
+                have := rd_append (u32le body.length ++ body) r
+                simpa [List.append_assoc, Nat.add_comm] using this
+              have h3 : decBuf (u32le body.length ++ body) = .ok (body, []) := by
+                unfold decBuf
+                rw [rdU32_u32le _ _ (by omega)]
+                have := rd_append body []
+                simpa using this
+              have h4 := H cls fs body [] hbody
+              rw [List.append_nil] at h4
+              simp only [decTy, visTy, List.append_assoc, h1, h2, h3, hd, hname', h4]
+            · cases h
+
+/-! ## structure bodies -/
+
+theorem encItems_rt (env : Env) (cfg : Cfg) (ver : Nat) {E : EncHook} {D : DecHook} {V : VisHook} (H : HookRT E D V) :
+    ∀ (it : Items) (vs : List Val) (b : Bytes) (vs' : List Val) (r : Bytes),
+      encItems E env cfg ver it vs = .ok (b, vs') →
+      decItems D env cfg ver it (b ++ r) = .ok ((visItems V cfg ver it vs).1, r)
+        ∧ (visItems V cfg ver it vs).2 = vs' := by
+  intro it
+  induction it with
+  | nil =>
+    intro vs b vs' r h
+    simp only [encItems] at h
+    cases h
+    simp [decItems, visItems]
+  | field n ty dflt rest ih =>
+    intro vs b vs' r h
+    cases vs with
+    | nil => simp only [encItems] at h; cases h
+    | cons v vs =>
+      simp only [encItems] at h
+      split at h
+      · cases h
+      · rename_i b1 hb1
+        split at h
+        · cases h
+        · rename_i bs vs'' hbs
+          cases h
+          have h1 := encTy_rt env cfg H ty v b1 (bs ++ r) hb1
+          obtain ⟨h2, h3⟩ := ih vs bs vs' r hbs
+          simp only [decItems, visItems, List.append_assoc, h1, h2, h3, and_self]
+  | nex g body rest ihb ihr =>
+    intro vs b vs' r h
+    simp only [encItems] at h
+    split at h
+    · rename_i hg
+      split at h
+      · cases h
+      · rename_i b1 vs1 hb1
+        split at h
+        · cases h
+        · rename_i bs vs2 hbs
+          cases h
+          obtain ⟨h1, h1'⟩ := ihb vs b1 vs1 (bs ++ r) hb1
+          obtain ⟨h2, h2'⟩ := ihr vs1 bs vs' r hbs
+          simp only [decItems, visItems, if_pos hg, List.append_assoc, h1, h1', h2, h2', and_self]
+    · rename_i hg
+      obtain ⟨h2, h2'⟩ := ihr _ b vs' r h
+      simp only [decItems, visItems, if_neg hg, h2, h2', and_self]
+  | rev g body rest ihb ihr =>
+    intro vs b vs' r h
+    simp only [encItems] at h
+    split at h
+    · rename_i hg
+      split at h
+      · cases h
+      · rename_i b1 vs1 hb1
+        split at h
+        · cases h
+        · rename_i bs vs2 hbs
+          cases h
+          obtain ⟨h1, h1'⟩ := ihb vs b1 vs1 (bs ++ r) hb1
+          obtain ⟨h2, h2'⟩ := ihr vs1 bs vs' r hbs
+          simp only [decItems, visItems, if_pos hg, List.append_assoc, h1, h1', h2, h2', and_self]
+    · rename_i hg
+      obtain ⟨h2, h2'⟩ := ihr _ b vs' r h
+      simp only [decItems, visItems, if_neg hg, h2, h2', and_self]
+
+/-! ## one class of the hierarchy, whole instances -/
+
+/-- shape of what one hierarchy level writes when structure headers are on -/
+theorem encClass_header {E : EncHook} {env : Env} {cfg : Cfg} {ver : Nat} {leaf : Items × List Val} {d : StructDef}
+    {vs vs' : List Val} {b : Bytes} (hh : cfg.structHeader = true)
+    (h : encClass E env cfg ver leaf d vs = .ok (b, vs')) :
+    ∃ body, encItems E env cfg ver d.items vs = .ok (body, vs') ∧ ver < 256 ∧ body.length < 4294967296
+      ∧ b = u8 ver ++ u32le body.length ++ body := by
+  unfold encClass at h
+  rw [if_pos hh] at h
+  split at h
+  · cases h
+  · split at h
+    · cases h
+    · rename_i body vs'' hbody
+      split at h
+      · cases h
+      · rename_i hv
+        split at h
+        · cases h
+        · rename_i hl
+          cases h
+          exact ⟨body, hbody, by omega, by omega, rfl⟩
+
+theorem encClass_noheader {E : EncHook} {env : Env} {cfg : Cfg} {ver : Nat} {leaf : Items × List Val} {d : StructDef}
+    {vs vs' : List Val} {b : Bytes} (hh : cfg.structHeader = false)
+    (h : encClass E env cfg ver leaf d vs = .ok (b, vs')) :
+    encItems E env cfg 0 d.items vs = .ok (b, vs') := by
+  unfold encClass at h
+  rw [if_neg (by simp [hh])] at h
+  split at h
+  · cases h
+  · exact h
+
+theorem decClass_header (D : DecHook) (env : Env) (cfg : Cfg) (d : StructDef) (hh : cfg.structHeader = true)
+    (ver : Nat) (hv : ver < 256) (sub r : Bytes) (hl : sub.length < 4294967296) :
+    decClass D env cfg d (u8 ver ++ u32le sub.length ++ sub ++ r) =
+      (match decItems D env cfg ver d.items sub with
+       | .error e => .error e
+       | .ok (vs, _) => .ok (vs, r)) := by
+  unfold decClass
+  rw [if_pos hh]
+  simp only [List.append_assoc]
+  rw [rdU8_u8 _ _ hv]
+  simp only []
+  have : decBuf (u32le sub.length ++ (sub ++ r)) = .ok (sub, r) := by
+    unfold decBuf
+    rw [rdU32_u32le _ _ hl]
+    exact rd_append sub r
+  rw [this]
+  rfl
+
+theorem encClass_rt (env : Env) (cfg : Cfg) (ver : Nat) (leaf : Items × List Val) (d : StructDef)
+    {E : EncHook} {D : DecHook} {V : VisHook} (H : HookRT E D V)
+    (vs : List Val) (b : Bytes) (vs' : List Val) (r : Bytes)
+    (h : encClass E env cfg ver leaf d vs = .ok (b, vs')) :
+    decClass D env cfg d (b ++ r)
+        = .ok ((visItems V cfg (if cfg.structHeader then ver else 0) d.items vs).1, r)
+      ∧ (visItems V cfg (if cfg.structHeader then ver else 0) d.items vs).2 = vs' := by
+  cases hh : cfg.structHeader with
+  | true =>
+    obtain ⟨body, hbody, hv, hl, rfl⟩ := encClass_header hh h
+    obtain ⟨h1, h2⟩ := encItems_rt env cfg ver H d.items vs body vs' [] hbody
+    rw [List.append_nil] at h1
+    rw [decClass_header D env cfg d hh ver hv body r hl, h1]
+    simp [h2]
+  | false =>
+    have hbody := encClass_noheader hh h
+    obtain ⟨h1, h2⟩ := encItems_rt env cfg 0 H d.items vs b vs' r hbody
+    unfold decClass
+    simp [hh, h1, h2]
+
+theorem encHook_ok {g : Name → List Val → Except Err (Bytes × List Val)} {n : Name} {fs : List Val} {b : Bytes}
+    (h : encHook g n fs = .ok b) : g n fs = .ok (b, []) := by
+  unfold encHook at h
+  split at h
+  · cases h
+  · rename_i b' rest hg
+    split at h
+    · rename_i he
+      cases h
+      have : rest = [] := by simpa using he
+      rw [hg, this]
+    · cases h
+
+theorem encGo_rt (env : Env) (cfg : Cfg) :
+    ∀ (f : Nat) (leaf : Option (Items × List Val)) (c : Name) (vs : List Val) (b : Bytes) (vs' : List Val) (r : Bytes),
+      encGo env cfg f leaf c vs = .ok (b, vs') →
+      decObj env cfg f c (b ++ r) = .ok ((visObj env cfg f c vs).1, r) ∧ (visObj env cfg f c vs).2 = vs' := by
+  intro f
+  induction f with
+  | zero => intro leaf c vs b vs' r h; simp [encGo] at h
+  | succ f ih =>
+    intro leaf c vs b vs' r h
+    have H : HookRT (encHook (encGo env cfg f none)) (decObj env cfg f) (visHook (visObj env cfg f)) := by
+      intro n fs b r hb
+      have := ih none n fs b [] r (encHook_ok hb)
+      simp only [visHook]
+      exact this.1
+    unfold encGo at h
+    split at h
+    · cases h
+    · rename_i d hd
+      cases hp : d.parent with
+      | none =>
+        simp only [hp] at h
+        split at h
+        · cases h
+        · rename_i cb vs2 hcb
+          cases h
+          obtain ⟨h1, h2⟩ := encClass_rt env cfg _ _ d H vs cb vs' r hcb
+          simp only [decObj, visObj, hd, hp, List.nil_append, h1, h2, and_self]
+      | some p =>
+        simp only [hp] at h
+        split at h
+        · cases h
+        · rename_i pb vs1 hpb
+          split at h
+          · cases h
+          · rename_i cb vs2 hcb
+            cases h
+            obtain ⟨h0, h0'⟩ := ih _ p vs pb vs1 (cb ++ r) hpb
+            obtain ⟨h1, h2⟩ := encClass_rt env cfg _ _ d H vs1 cb vs' r hcb
+            simp only [decObj, visObj, hd, hp, List.append_assoc, h0, h0', h1, h2, and_self]
+
+/-- the hooks at every fuel level satisfy the round-trip contract -/
+theorem hookRT_fuel (env : Env) (cfg : Cfg) (f : Nat) :
+    HookRT (encHook (encObj env cfg f)) (decObj env cfg f) (visHook (visObj env cfg f)) := by
+  intro n fs b r hb
+  have := encGo_rt env cfg f none n fs b [] r (encHook_ok hb)
+  simp only [visHook]
+  exact this.1
+
+/-- **generic schema round trip** -/
+theorem encode_decode (env : Env) (cfg : Cfg) (fuel : Nat) (ty : Ty) (v : Val) (b r : Bytes)
+    (h : encode env cfg fuel ty v = .ok b) :
+    decode env cfg fuel ty (b ++ r) = .ok (visible env cfg fuel ty v, r) :=
+  encTy_rt env cfg (hookRT_fuel env cfg fuel) ty v b r h
+
+/-! ## method arguments / results -/
+
+theorem encArgs_rt (env : Env) (cfg : Cfg) (fuel : Nat) :
+    ∀ (ps : List (Name × Ty)) (vs : List Val) (b r : Bytes),
+      encArgs env cfg fuel ps vs = .ok b →
+      decArgs env cfg fuel ps (b ++ r) = .ok (visArgs env cfg fuel ps vs, r)
+  | [], [], b, r, h => by simp [encArgs] at h; subst h; simp [decArgs, visArgs]
+  | [], _ :: _, b, r, h => by simp [encArgs] at h
+  | _ :: _, [], b, r, h => by simp [encArgs] at h
+  | (n, ty) :: ps, v :: vs, b, r, h => by
+    simp only [encArgs] at h
+    split at h
+    · cases h
+    · rename_i b1 hb1
+      split at h
+      · cases h
+      · rename_i bs hbs
+        cases h
+        have h1 := encode_decode env cfg fuel ty v b1 (bs ++ r) hb1
+        have h2 := encArgs_rt env cfg fuel ps vs bs r hbs
+        simp only [decArgs, visArgs, List.append_assoc, h1, h2]
+
+theorem encArgs_cons (env : Env) (cfg : Cfg) (fuel : Nat) (n : Name) (ty : Ty) (ps : List (Name × Ty))
+    (v : Val) (vs : List Val) (b : Bytes) :
+    encArgs env cfg fuel ((n, ty) :: ps) (v :: vs) = .ok b ↔
+      ∃ b1 b2, encode env cfg fuel ty v = .ok b1 ∧ encArgs env cfg fuel ps vs = .ok b2 ∧ b = b1 ++ b2 := by
+  simp only [encArgs]
+  constructor
+  · intro h
+    split at h
+    · cases h
+    · rename_i b1 hb1
+      split at h
+      · cases h
+      · rename_i bs hbs
+        cases h
+        exact ⟨b1, bs, hb1, hbs, rfl⟩
+  · rintro ⟨b1, b2, h1, h2, rfl⟩
+    simp [h1, h2]
+
+theorem clientRequest_ok {env : Env} {cfg : Cfg} {fuel : Nat} {p : ProtoDef} {m : MethodDef} {args : List Val}
+    {pi mi : Nat} {body : Bytes} (h : clientRequest env cfg fuel p m args = .ok (pi, mi, body)) :
+    pi = p.id ∧ mi = m.id ∧ encArgs env cfg fuel m.request args = .ok body := by
+  unfold clientRequest at h
+  split at h
+  · cases h
+  · rename_i b hb; cases h; exact ⟨rfl, rfl, hb⟩
+
+theorem serverRequest_of_client {env : Env} {cfg : Cfg} {fuel : Nat} {m : MethodDef} {args : List Val} {body : Bytes}
+    (h : encArgs env cfg fuel m.request args = .ok body) (extra : Bytes) :
+    serverRequest env cfg fuel m (body ++ extra) = .ok (visArgs env cfg fuel m.request args) := by
+  unfold serverRequest
+  rw [encArgs_rt env cfg fuel m.request args body extra h]
+
+theorem serverResponse_ok {env : Env} {cfg : Cfg} {fuel : Nat} {m : MethodDef} {res : List Val} {body : Bytes}
+    (h : serverResponse env cfg fuel m res = .ok body) : encArgs env cfg fuel m.response res = .ok body := by
+  unfold serverResponse at h
+  split at h
+  · split at h
+    · exact h
+    · cases h
+  · exact h
+
+theorem clientResponse_of_server {env : Env} {cfg : Cfg} {fuel : Nat} {m : MethodDef} {res : List Val} {body : Bytes}
+    (h : encArgs env cfg fuel m.response res = .ok body) :
+    clientResponse env cfg fuel m body = .ok (visArgs env cfg fuel m.response res) := by
+  unfold clientResponse
+  have := encArgs_rt env cfg fuel m.response res body [] h
+  rw [List.append_nil] at this
+  rw [this]; rfl
+
+theorem clientResponse_trailing {env : Env} {cfg : Cfg} {fuel : Nat} {m : MethodDef} {res : List Val} {body : Bytes}
+    (h : encArgs env cfg fuel m.response res = .ok body) (x : Bytes) (hx : x ≠ []) :
+    clientResponse env cfg fuel m (body ++ x) = .error .value := by
+  unfold clientResponse
+  rw [encArgs_rt env cfg fuel m.response res body x h]
+  cases x with
+  | nil => exact absurd rfl hx
+  | cons a t => rfl
+
+/-! ## method tables -/
+
+theorem nodupNat_not_mem : ∀ (l : List Nat) (a : Nat), nodupNat (a :: l) = true → a ∉ l := by
+  intro l a h
+  simp only [nodupNat, Bool.and_eq_true, Bool.not_eq_true', List.contains_eq_mem, decide_eq_false_iff_not] at h
+  exact h.1
+
+theorem find_of_nodup {α : Type} (f : α → Nat) :
+    ∀ (l : List α) (m : α), nodupNat (l.map f) = true → m ∈ l → l.find? (fun x => f x == f m) = some m
+  | [], m, _, hm => by cases hm
+  | a :: l, m, hn, hm => by
+    simp only [List.map] at hn
+    have hnot := nodupNat_not_mem _ _ hn
+    have hn' : nodupNat (l.map f) = true := by
+      simp only [nodupNat, Bool.and_eq_true] at hn; exact hn.2
+    simp only [List.find?]
+    cases List.mem_cons.mp hm with
+    | inl h => subst h; simp
+    | inr h =>
+      have : (f a == f m) = false := by
+        apply beq_false_of_ne
+        intro he
+        exact hnot (he ▸ List.mem_map_of_mem h)
+      rw [this]
+      exact find_of_nodup f l m hn' h
+
+theorem wfProto_ids {env : Env} {p : ProtoDef} (h : wfProto env p = true) :
+    nodupNat (p.methods.map (·.id)) = true ∧ nodupNat (p.methods.map (·.name)) = true := by
+  simp only [wfProto, Bool.and_eq_true] at h
+  exact ⟨h.1.1.1, h.1.1.2⟩
+
+/-! ## gates -/
+
+/-- names of the attributes a `save`/`load` touches, in order -/
+def Items.active (nex ver : Nat) : Items → List Name
+  | .nil => []
+  | .field n _ _ r => n :: r.active nex ver
+  | .nex g b r => (if nex ≥ g then b.active nex ver else []) ++ r.active nex ver
+  | .rev g b r => (if ver ≥ g then b.active nex ver else []) ++ r.active nex ver
+
+theorem active_mono_nex (ver : Nat) {n1 n2 : Nat} (h : n1 ≤ n2) :
+    ∀ it : Items, (it.active n1 ver).Sublist (it.active n2 ver) := by
+  intro it
+  induction it with
+  | nil => exact List.Sublist.refl _
+  | field n ty d r ih => exact List.Sublist.cons_cons _ ih
+  | nex g b r ihb ihr =>
+    simp only [Items.active]
+    by_cases h1 : n1 ≥ g
+    · have h2 : n2 ≥ g := by omega
+      rw [if_pos h1, if_pos h2]; exact List.Sublist.append ihb ihr
+    · rw [if_neg h1]
+      by_cases h2 : n2 ≥ g
+      · rw [if_pos h2]; exact List.Sublist.append (List.nil_sublist _) ihr
+      · rw [if_neg h2]; exact List.Sublist.append (List.Sublist.refl _) ihr
+  | rev g b r ihb ihr =>
+    simp only [Items.active]
+    by_cases h1 : ver ≥ g
+    · simp only [if_pos h1]; exact List.Sublist.append ihb ihr
+    · simp only [if_neg h1]; exact List.Sublist.append (List.Sublist.refl _) ihr
+
+/-! ## revisions: `max_version` as the bound of every reachable revision block (C14) -/
+
+def gatesAgree (n t : Nat) (it : Items) : Prop := ∀ g ∈ it.nexGates, (g ≤ n ↔ g ≤ t)
+
+theorem maxVerGo_agree {n t : Nat} : ∀ (it : Items), gatesAgree n t it → ∀ v, maxVerGo n it v = maxVerGo t it v := by
+  intro it
+  induction it with
+  | nil => intro _ v; rfl
+  | field a ty d r ih => intro h v; simp only [maxVerGo]; exact ih h v
+  | rev g b r ihb ihr =>
+    intro h v
+    simp only [maxVerGo]
+    exact ihr (fun g' hg' => h g' (by simp [Items.nexGates, hg'])) g
+  | nex g b r ihb ihr =>
+    intro h v
+    have hb : gatesAgree n t b := fun g' hg' => h g' (by simp [Items.nexGates, hg'])
+    have hr : gatesAgree n t r := fun g' hg' => h g' (by simp [Items.nexGates, hg'])
+    have hg : (g ≤ n ↔ g ≤ t) := h g (by simp [Items.nexGates])
+    simp only [maxVerGo]
+    by_cases h1 : n ≥ g
+    · have h2 : t ≥ g := hg.mp h1
+      simp only [if_pos h1, if_pos h2, ihb hb v, ihr hr]
+    · have h2 : ¬ t ≥ g := fun h2 => h1 (hg.mpr h2)
+      simp only [if_neg h1, if_neg h2, ihr hr]
+
+theorem revsBelow_agree {n t : Nat} (m : Nat) : ∀ (it : Items), gatesAgree n t it → revsBelow m n it = revsBelow m t it := by
+  intro it
+  induction it with
+  | nil => intro _; rfl
+  | field a ty d r ih => intro h; simp only [revsBelow]; exact ih h
+  | rev g b r ihb ihr =>
+    intro h
+    simp only [revsBelow]
+    rw [ihb (fun g' hg' => h g' (by simp [Items.nexGates, hg'])), ihr (fun g' hg' => h g' (by simp [Items.nexGates, hg']))]
+  | nex g b r ihb ihr =>
+    intro h
+    have hb : gatesAgree n t b := fun g' hg' => h g' (by simp [Items.nexGates, hg'])
+    have hr : gatesAgree n t r := fun g' hg' => h g' (by simp [Items.nexGates, hg'])
+    have hg : (g ≤ n ↔ g ≤ t) := h g (by simp [Items.nexGates])
+    simp only [revsBelow]
+    by_cases h1 : n ≥ g
+    · have h2 : t ≥ g := hg.mp h1
+      simp only [if_pos h1, if_pos h2, ihb hb, ihr hr]
+    · have h2 : ¬ t ≥ g := fun h2 => h1 (hg.mpr h2)
+      simp only [if_neg h1, if_neg h2, ihr hr]
+
+/-- every `nex.version` behaves like one of the thresholds `0, g₁, g₂, …` -/
+theorem exists_threshold (n : Nat) : ∀ gs : List Nat, ∃ t, t ∈ 0 :: gs ∧ t ≤ n ∧ ∀ g ∈ gs, (g ≤ n ↔ g ≤ t)
+  | [] => ⟨0, by simp, Nat.zero_le _, by simp⟩
+  | g :: gs => by
+    obtain ⟨t, ht, htn, hall⟩ := exists_threshold n gs
+    by_cases hg : g ≤ n
+    · by_cases hgt : g ≤ t
+      · refine ⟨t, ?_, htn, ?_⟩
+        · cases List.mem_cons.mp ht with
+          | inl h => simp [h]
+          | inr h => simp [h]
+        · intro g' hg'
+          cases List.mem_cons.mp hg' with
+          | inl h => subst h; exact ⟨fun _ => hgt, fun _ => hg⟩
+          | inr h => exact hall g' h
+      · refine ⟨g, by simp, hg, ?_⟩
+        intro g' hg'
+        cases List.mem_cons.mp hg' with
+        | inl h => subst h; exact ⟨fun _ => Nat.le_refl _, fun _ => hg⟩
+        | inr h =>
+          constructor
+          · intro h1; have := (hall g' h).mp h1; omega
+          · intro h1; omega
+    · refine ⟨t, ?_, htn, ?_⟩
+      · cases List.mem_cons.mp ht with
+        | inl h => simp [h]
+        | inr h => simp [h]
+      · intro g' hg'
+        cases List.mem_cons.mp hg' with
+        | inl h => subst h; exact ⟨fun h1 => absurd h1 hg, fun h1 => by omega⟩
+        | inr h => exact hall g' h
+
+theorem revAscending_sound {it : Items} (h : it.revAscending = true) (n : Nat) :
+    revsBelow (maxVersion n it) n it = true ∧ maxVersion n it < 256 := by
+  obtain ⟨t, ht, _, hall⟩ := exists_threshold n it.nexGates
+  have hag : gatesAgree n t it := hall
+  simp only [Items.revAscending, List.all_eq_true, Bool.and_eq_true, decide_eq_true_eq] at h
+  obtain ⟨h1, h2⟩ := h t ht
+  have hm : maxVersion n it = maxVersion t it := maxVerGo_agree it hag 0
+  rw [hm, revsBelow_agree _ it hag]
+  exact ⟨h1, h2⟩
+
+theorem revsBelow_of_noRev (m n : Nat) : ∀ it : Items, it.hasRev = false → revsBelow m n it = true := by
+  intro it
+  induction it with
+  | nil => intro _; rfl
+  | field a ty d r ih => intro h; simp only [revsBelow]; exact ih (by simpa [Items.hasRev] using h)
+  | rev g b r ihb ihr => intro h; simp [Items.hasRev] at h
+  | nex g b r ihb ihr =>
+    intro h
+    simp only [Items.hasRev, Bool.or_eq_false_iff] at h
+    simp only [revsBelow, ihb h.1, ihr h.2]
+    simp
+
+/-- a decoder told a higher revision than the one that bounds all reachable blocks reads the same fields -/
+theorem decItems_ver (D : DecHook) (env : Env) (cfg : Cfg) {m v' : Nat} (hv : m ≤ v') :
+    ∀ (it : Items) (b : Bytes), revsBelow m cfg.nexVersion it = true →
+      decItems D env cfg v' it b = decItems D env cfg m it b := by
+  intro it
+  induction it with
+  | nil => intro b _; rfl
+  | field a ty d r ih =>
+    intro b h
+    simp only [revsBelow] at h
+    simp only [decItems]
+    split
+    · rfl
+    · rename_i v b1 _; rw [ih b1 h]
+  | nex g body r ihb ihr =>
+    intro b h
+    simp only [revsBelow, Bool.and_eq_true] at h
+    simp only [decItems]
+    by_cases hg : cfg.nexVersion ≥ g
+    · rw [if_pos hg] at h
+      simp only [if_pos hg, ihb b h.1]
+      split
+      · rfl
+      · rename_i vs1 b1 _; rw [ihr b1 h.2]
+    · simp only [if_neg hg, ihr b h.2]
+  | rev g body r ihb ihr =>
+    intro b h
+    simp only [revsBelow, Bool.and_eq_true, decide_eq_true_eq] at h
+    have h1 : m ≥ g := h.1.1
+    have h2 : v' ≥ g := by omega
+    simp only [decItems, if_pos h1, if_pos h2, ihb b h.1.2]
+    split
+    · rfl
+    · rename_i vs1 b1 _; rw [ihr b1 h.2]
+
+/-- **forward compatibility, one hierarchy level.** With structure headers on, replace the version byte of what
+    `encClass` wrote by any `v' ≥ ver` and append any bytes `x` *inside* the length-prefixed body: the decoder
+    yields the same attributes and leaves the rest of the message untouched — provided `ver` bounds every
+    reachable revision block (`revsBelow`, which `revAscending` gives for every `nex.version`). -/
+theorem forward_compat_class (env : Env) (cfg : Cfg) (ver : Nat) (leaf : Items × List Val) (d : StructDef)
+    {E : EncHook} {D : DecHook} {V : VisHook} (H : HookRT E D V) (hh : cfg.structHeader = true)
+    (vs vs' : List Val) (b : Bytes) (henc : encClass E env cfg ver leaf d vs = .ok (b, vs'))
+    (hb : revsBelow ver cfg.nexVersion d.items = true) :
+    ∃ body, b = u8 ver ++ u32le body.length ++ body ∧
+      ∀ (v' : Nat) (x r : Bytes), ver ≤ v' → v' < 256 → body.length + x.length < 4294967296 →
+        decClass D env cfg d (u8 v' ++ u32le (body.length + x.length) ++ (body ++ x) ++ r)
+          = .ok ((visItems V cfg ver d.items vs).1, r) := by
+  obtain ⟨body, hbody, _, _, rfl⟩ := encClass_header hh henc
+  refine ⟨body, rfl, ?_⟩
+  intro v' x r hv hv' hl
+  have hlen : (body ++ x).length = body.length + x.length := by simp
+  have := decClass_header D env cfg d hh v' hv' (body ++ x) r (by omega)
+  rw [hlen] at this
+  rw [this, decItems_ver D env cfg hv d.items (body ++ x) hb]
+  obtain ⟨h1, _⟩ := encItems_rt env cfg ver H d.items vs body vs' x hbody
+  rw [h1]
+
+theorem effMaxVersion_root {env : Env} {c : Name} {d : StructDef} (hl : lookup env c = some d) (hp : d.parent = none)
+    (nex f : Nat) :
+    effMaxVersion env nex (f + 1) c = if d.items.hasRev then maxVersion nex d.items else 0 := by
+  simp only [effMaxVersion, hl, hp]
+
+/-- **forward compatibility for an instance of a class without base class** (the versioned structures of the
+    definitions are of this kind except `MatchmakeSession`, whose own level is covered by `forward_compat_class`) -/
+theorem forward_compat_root (env : Env) (cfg : Cfg) (f : Nat) (c : Name) (d : StructDef)
+    (hl : lookup env c = some d) (hp : d.parent = none) (hh : cfg.structHeader = true)
+    (hasc : d.items.revAscending = true) (vs vs' : List Val) (b : Bytes)
+    (henc : encObj env cfg (f + 1) c vs = .ok (b, vs')) :
+    ∃ body, b = u8 (effMaxVersion env cfg.nexVersion (f + 1) c) ++ u32le body.length ++ body ∧
+      ∀ (v' : Nat) (x r : Bytes), effMaxVersion env cfg.nexVersion (f + 1) c ≤ v' → v' < 256 →
+        body.length + x.length < 4294967296 →
+        decObj env cfg (f + 1) c (u8 v' ++ u32le (body.length + x.length) ++ (body ++ x) ++ r)
+          = .ok ((visObj env cfg (f + 1) c vs).1, r) := by
+  have H : HookRT (encHook (encGo env cfg f none)) (decObj env cfg f) (visHook (visObj env cfg f)) :=
+    hookRT_fuel env cfg f
+  have hb : revsBelow (effMaxVersion env cfg.nexVersion (f + 1) c) cfg.nexVersion d.items = true := by
+    rw [effMaxVersion_root hl hp]
+    cases hr : d.items.hasRev with
+    | true => simp only [if_true]; exact (revAscending_sound hasc cfg.nexVersion).1
+    | false => exact revsBelow_of_noRev _ _ _ hr
+  simp only [encObj, encGo, hl, hp] at henc
+  split at henc
+  · cases henc
+  · rename_i cb vs2 hcb
+    cases henc
+    obtain ⟨body, hbody, hfc⟩ := forward_compat_class env cfg _ _ d H hh vs vs' cb hcb hb
+    refine ⟨body, by simpa using hbody, ?_⟩
+    intro v' x r h1 h2 h3
+    have := hfc v' x r h1 h2 h3
+    simp only [decObj, visObj, hl, hp, hh, if_true, this, List.nil_append]
+
+/-! ## RMC client settings -/
+
+theorem rmcClientCfg_header (cfg : Cfg) (minor : Nat) (h : minor ≥ 3) : (rmcClientCfg cfg minor).structHeader = true := by
+  simp [rmcClientCfg, h]
+
+theorem rmcClientCfg_keep (cfg : Cfg) (minor : Nat) (h : minor < 3) : rmcClientCfg cfg minor = cfg := by
+  simp [rmcClientCfg]; omega
+
+theorem rmcClientCfg_other (cfg : Cfg) (minor : Nat) :
+    (rmcClientCfg cfg minor).nexVersion = cfg.nexVersion ∧ (rmcClientCfg cfg minor).pidSize = cfg.pidSize := by
+  unfold rmcClientCfg; split <;> simp
+
+/-! ## a small environment for non-vacuity examples (shapes taken from the repository's definitions) -/
+namespace Ex
+
+/-- `struct Gathering { uint32 id; nex 30500 { string descr = ""; } }` -/
+def gathering : StructDef :=
+  { name := 71, parent := none, items := .field 1 (.uint .b4) false (.nex 30500 (.field 2 .string true .nil) .nil) }
+
+/-- the shape of `MatchmakeSession : Gathering`: revisions 1 then 0 behind nex gates -/
+def session : StructDef :=
+  { name := 77, parent := some 71,
+    items := .field 3 (.list (.uint .b1)) false
+      (.nex 30600 (.rev 1 (.field 4 .datetime true .nil) .nil)
+      (.nex 40000 (.rev 0 (.field 5 .string true .nil) .nil) .nil)) }
+
+/-- the shape of `RVConnectionData`: `nex 30500 { revision 1 { datetime t } }` -/
+def conn : StructDef :=
+  { name := 82, parent := none,
+    items := .field 6 .stationurl true (.nex 30500 (.rev 1 (.field 7 .datetime true .nil) .nil) .nil) }
+
+def meth : MethodDef :=
+  { id := 1, name := 90, supported := true,
+    request := [(1, .struct 77), (2, .pid)], response := [(3, .anydata), (4, .bool)] }
+
+def proto : ProtoDef :=
+  { name := 80, id := 21, noresponse := false,
+    methods := [meth, { id := 2, name := 91, supported := false, request := [], response := [] }] }
+
+def env : Env := { structs := builtins ++ [gathering, session, conn], protos := [proto] }
+
+def cfgOld : Cfg := { nexVersion := 30499, structHeader := false, pidSize := 4 }
+def cfgNew : Cfg := { nexVersion := 40000, structHeader := true, pidSize := 8 }
+def cfg36 : Cfg := { nexVersion := 30600, structHeader := true, pidSize := 8 }
+
+def sessionVal : Val := .obj 77 [.int 7, .str [0x41], .list [.int 1, .int 255], .int 99, .str [0x42]]
+
+end Ex
 
 end Nx.Schema
